@@ -262,6 +262,11 @@ def c03a(chk):
         chk.ob("C03.a", "Count::try_from_shape/zero-axis->None", ok and whole, h.loc(), "every axis length n becomes n.checked_sub(1), a zero-length axis rejects the shape (%s; per element over the whole vector=%s)" % (why, whole))
 
 
+def RIO_local_uses(f, local):
+    import rules_io
+    return rules_io.local_uses(f, local)
+
+
 def c03b(chk):
     prog = chk.prog
     f = chk.fn(SP + "project")
@@ -337,6 +342,31 @@ def c03b(chk):
         after = an.dominated_by_edge(f, it.switch_bb, it.none_t, isu[0][0]) if it.kind == "loop" else (f.dominates(it_bb, isu[0][0]) and it_bb != isu[0][0])
     ok = len(isu) == 1 and op_local(isu[0][1]["args"][0]) is not None and f.copy_root(op_local(isu[0][1]["args"][0])) == an.call_dest_local(fz[0][1]) and after
     chk.ob("C03.b", "project/returns-accumulator-after-loop", ok, f.loc(), "Ok(result) is built from the accumulator once every cell has been visited")
+    # nothing else writes the accumulator: every `&mut result` goes to add_unchecked (directly, or through the per-cell closure that calls it)
+    acc = an.call_dest_local(fz[0][1])
+    other = []
+    for b_, i_, p_, rv_, s_ in f.assigns():
+        if rv_["k"] == "ref" and rv_.get("mut") and P(rv_["place"])[0] == acc:
+            refl = p_[0]
+            for ub, kind, det in RIO_local_uses(f, refl):
+                if kind == "call" and (det == callee_name(aut["callee"]) or "add_unchecked" in det):
+                    continue
+                if kind == "stmt" and det in ("aggregate", "ref", "use"):
+                    # captured by the per-cell closure / reborrowed: followed one step
+                    continue
+                other.append("%s %s at %s" % (kind, det, f.loc(ub)))
+    for b_, t_ in f.calls():
+        for a_ in t_["args"]:
+            pl_ = op_place(a_)
+            if pl_ and pl_[0] != acc:
+                d_ = f.single_def(pl_[0])
+                if d_ and d_[0] == "assign" and d_[3]["k"] == "ref" and d_[3].get("mut") and P(d_[3]["place"])[0] == acc and not callee_is(t_["callee"], PROJ + "Projected::<'a>::add_unchecked"):
+                    nm_ = callee_name(t_["callee"])
+                    if not any(nm_ in o for o in other):
+                        other.append("call %s at %s" % (nm_, f.loc(b_)))
+    chk.ob("C03.b", "project/result-written-only-by-add_unchecked", not other, f.loc(),
+           "between from_zeros and the return the accumulator is mutated only by Projected::add_unchecked (a later rescaling, clamping or rounding of the "
+           "result changes every projected value; other mutable uses: %s)" % (other or "none"))
     pj = chk.fn(PROJ + "Projection::project_unchecked")
     if pj is not None:
         chk.ob("C03.b", "Projection::project_unchecked/forwards-(project_from, from)", len(an.calls(pj, PROJ + "PartialProjection::project_unchecked")) == 1, pj.loc(), "checked in detail by C02.b", nontrivial=False)
@@ -1091,6 +1121,7 @@ def c04e(chk):
     chk.ob("C04.e", "view/marginalize(&axes)?", ok, f.loc(), why)
     # remove arm: the list is moved through untouched
     ok = False
+    mutated = []
     for b, i, p, rv, s in f.assigns():
         if rv["k"] == "use":
             chain = RG.pure_move_chain(f, rv["op"])
@@ -1101,7 +1132,17 @@ def c04e(chk):
                         c2 = RG.pure_move_chain(f, t2["args"][0])
                         if c2 and any(pl == P(s["place"]) or pl[0] == P(s["place"])[0] for pl in c2):
                             ok = True
-    chk.ob("C04.e", "view/--marginalize-remove-passed-through", ok, f.loc(), "the remove list reaches marginalize as given: duplicates and out-of-range axes are left for the library to reject")
+                            # ... and is not modified in place on the way (sort + dedup in a helper that takes and returns the vector)
+                            for pl in list(c2) + list(chain) + [P(s["place"])]:
+                                if pl[1]:
+                                    continue
+                                for b3, i3, p3, rv3, s3 in f.assigns():
+                                    if rv3["k"] == "ref" and rv3.get("mut") and P(rv3["place"])[0] == pl[0]:
+                                        for ub, kind, det in RIO_local_uses(f, p3[0]):
+                                            if kind == "call" and not det.endswith("into_iter"):
+                                                mutated.append("%s at %s" % (det.split("::")[-1], f.loc(ub)))
+    chk.ob("C04.e", "view/--marginalize-remove-passed-through", ok and not mutated, f.loc(),
+           "the remove list reaches marginalize as given: duplicates and out-of-range axes are left for the library to reject (in-place modifications on the way: %s)" % (sorted(set(mutated)) or "none"))
     import rules_view
     kc = rules_view.keep_complement(chk, f)
     chk.ob("C04.e", "view/--marginalize-keep->complement", kc["complement"] and kc["range"], kc["where"], "keep is converted to the complement over 0..dimensions() (details: C13.d)", nontrivial=False)
